@@ -112,6 +112,15 @@ PROPS = {
             J("par1", "C10_reader", bound="2 saved entries + 1 non-saved entry at every position, a comment in the index, 2 volumes; one saved file lost"),
         ],
     ),
+    "C20": dict(
+        explanation="the real main of cmd/par on an argument vector chosen by the solver, library entry points stubbed with symbolic outcomes; library side: needed-but-impossible repairs are classified",
+        assumptions=["the flag package runs as real SSA; FlagSet.PrintDefaults and fmt printing are no-ops; -cpuprofile (pprof, signal handler) is outside the claim",
+                     "counterexamples of C20_main are replayed by building the par binary and running it on real files in a scratch directory"],
+        jobs=[
+            J("cmd/par", "C20_main", replay="c20", no_native=True, bound="commands c/create/v/verify/r/repair in mixed case, bogus, none; index names s.par, s.par2, dir/s.par2, other / no extension, none; flags none, -g 2, an unknown flag before or after the command; 0..1 data files; library outcome nil / needed-but-impossible / other error; unusable and usable counts 0..2", must_reach=["usage", "verify", "repair"]),
+            J("par2", "C20_par2_classify", bound="PAR2 library: every file missing and 0..1 of 1 recovery files left: Repair's error is classified as needed-but-impossible"),
+        ],
+    ),
     "C05": dict(
         explanation="real Create on a symbolic file system, output judged by an independent PAR2 reader and Reed-Solomon oracle written from the specification",
         assumptions=["MD5 is modelled as an injective function (collision- and forgery-free); CRC32 is the bitwise reflected CRC (validated against hash/crc32)",
@@ -241,6 +250,69 @@ PROPS = {
 
 
 NOT_APPLICABLE = {}
+
+
+C20_CMDS = ["c", "create", "v", "verify", "r", "repair", "C", "Verify", "REPAIR", "bogus", ""]
+C20_FILES = ["s.par", "s.par2", "dir/s.par2", "s.txt", "s", ""]
+
+
+def replay_c20(cex, scratch, repo, goenv):
+    """Replays a C20_main counterexample with the real binary on real files."""
+    import os, subprocess, shutil
+    m = cex["model"]
+    cmd = C20_CMDS[m.get("cmd", 0)]
+    fname = C20_FILES[m.get("file", 0)]
+    outcome = m.get("outcome", 0)
+    unusable, usable = m.get("unusable", 0), m.get("usableParity", 0)
+    par = os.path.join(scratch, "par-bin")
+    r = subprocess.run(["go", "build", "-o", par, "./cmd/par"], cwd=repo, env=goenv, stdout=subprocess.PIPE, stderr=subprocess.STDOUT, text=True)
+    if r.returncode != 0:
+        return dict(error="cannot build par: " + r.stdout[-300:])
+    d = os.path.join(scratch, "c20dir")
+    shutil.rmtree(d, ignore_errors=True)
+    os.makedirs(os.path.join(d, "dir"))
+    if fname not in ("s.par", "s.par2", "dir/s.par2"):
+        return dict(assume_failed=True)
+    sub = "dir/" if fname.startswith("dir/") else ""
+    for n, c in (("a", b"hello"), ("b", b"xyz")):
+        open(os.path.join(d, sub + n), "wb").write(c)
+    run = lambda args: subprocess.run([par] + args, cwd=d, stdout=subprocess.PIPE, stderr=subprocess.STDOUT).returncode
+    lower = {"c": "create", "create": "create", "C": "create", "v": "verify", "verify": "verify", "Verify": "verify", "r": "repair", "repair": "repair", "REPAIR": "repair"}.get(cmd)
+    if lower is None:
+        return dict(assume_failed=True)
+    if lower == "create":
+        if outcome != 0:
+            os.remove(os.path.join(d, sub + "a"))  # a missing input makes Create fail
+        code = run([cmd, "-c", "2", fname, sub + "a", sub + "b"])
+        ok = (code == 0) if outcome == 0 else (code not in (0, 3))
+        return dict(fails=[] if ok else [cex["label"]], exit_code=code)
+    if run(["c", "-c", "2", fname, sub + "a", sub + "b"]) != 0:
+        return dict(error="cannot create the set")
+    base = os.path.join(d, fname.rsplit(".", 1)[0])
+    vols = [os.path.join(os.path.dirname(base) or d, f) for f in os.listdir(os.path.dirname(base) or d) if f.startswith(os.path.basename(base) + ".") and not f.endswith((".par", ".par2")) or f.startswith(os.path.basename(base) + ".vol")]
+    state = "intact"
+    if lower == "verify":
+        if outcome == 2:
+            state = "broken"
+        elif unusable == 0:
+            state = "intact"
+        elif unusable <= usable:
+            state = "repairable"
+        else:
+            state = "unrepairable"
+    else:
+        state = ["intact", "unrepairable", "broken"][outcome]
+    if state in ("repairable", "unrepairable"):
+        os.remove(os.path.join(d, sub + "a"))
+    if state == "unrepairable":
+        for v in vols:
+            os.remove(v)
+    if state == "broken":
+        open(os.path.join(d, fname), "r+b").truncate(10)
+    code = run([cmd, fname])
+    want = {"intact": (0,), "repairable": (1,) if lower == "verify" else (0,), "unrepairable": (2,), "broken": None}[state]
+    ok = (code in want) if want else (code not in (0, 1, 2, 3))
+    return dict(fails=[] if ok else [cex["label"] + " [binary exit %d, state %s]" % (code, state)], exit_code=code, state=state)
 
 
 def run_special(job, scratch, repo, verif, goenv, tier, seed):
